@@ -157,8 +157,7 @@ def FS.content (fs : FS) (n : Name) : Option Text :=
   | some i => fs.inodes[i]?
   | none => none
 
-def setAt (l : List Text) (i : Nat) (t : Text) : List Text :=
-  l.zipIdx.map (fun p => if p.2 = i then t else p.1)
+def setAt (l : List Text) (i : Nat) (t : Text) : List Text := l.set i t
 
 def FS.flushH (fs : FS) : FS :=
   match fs.handle with
@@ -213,9 +212,11 @@ def rewriteOps (rv : RVariant) (sameFs : Bool) (out : List Text) : List Op :=
   else
     [.create .tmp] ++ writes ++ [.unlink .data, move, .close]
 
-/-- on-disk content of the data file after each prefix of the operations (a kill there) -/
-def crashStates (fs : FS) (ops : List Op) : List (Option Text) :=
-  (List.range (ops.length + 1)).map (fun k => (fs.run (ops.take k)).content .data)
+/-- on-disk content of the data file after each prefix of the operations (a kill there),
+the empty prefix and the whole list included -/
+def crashStates (fs : FS) : List Op → List (Option Text)
+  | [] => [fs.content .data]
+  | o :: os => fs.content .data :: crashStates (fs.apply o) os
 
 /-- `-c`: every data file of the selected experiments is truncated when its persistence object is
 created (persistence.py:202-224) -/
